@@ -202,13 +202,13 @@ S = {
  "C12-3": ("C12", "/tmp/seed2/C12/_seed/1", "seed_demo_1_test.go", "^(TestSeedDemo1_ConcurrentRegisterSamePath)$", ".", ['C12'], "",
    'RegisterDB: second duplicate check and append in separate critical sections',
    'two registrations of one path leaving Open() together under registry-lock contention'),
- "C12-4": ("C12", "/tmp/seed2/C12/_seed/2", "seed_demo_2_test.go", "^(TestSeedDemo2_LateSyncAfterCloseBeforeFirstSync|TestSeedDemo2_StoreSyncRacesUnregister)$", ".", ['C12'], "",
+ "C12-4": ("C12", "/tmp/seed2/C12/_seed/2", "seed_demo_2_test.go", "^(TestSeedDemo2_StoreSyncRacesUnregister)$", ".", ['C12'], "",
    'DB.Close fast path for a never-initialised database skips closed=true',
-   'Close before the first sync, then an operation that still reaches the object (SyncDB racing UnregisterDB)'),
+   'Close before the first sync, then an operation that still reaches the object (SyncDB racing UnregisterDB); the first demo test also asserted that a sync on a closed database returns nil, which fix 94c91f9 (F25) deliberately changed, so only the second test is used'),
  "C12-5": ("C12", "/tmp/seed2/C12/_seed/3", "seed_demo_3_test.go", "^(TestSeedDemo3_StatusQueriesDuringSync)$", ".", ['C12'], "",
    'SyncDiagnostic takes syncDiag.RLock recursively',
    'a sync phase transition (Lock) between the two RLock calls: deadlock holding the executor semaphore'),
- "C13-3": ("C13", "/tmp/seed2/C13/_seed/1", "seed_demo_1_test.go", "^(TestSeedDemo1_WALBoundedAfterFailedSnapshotUpload)$", ".", ['C13', 'C12'], "",
+ "C13-3": ("C13", "/tmp/seed2/C13/_seed/1", "seed_demo_1_test.go", "^(TestSeedDemo1_WALBoundedAfterFailedSnapshotUpload)$", ".", ['C13', 'C12', 'C05'], "",
    'DB.Snapshot closes the snapshot stream only after a successful upload',
    'fault partway through a snapshot upload: the checkpoint read-lock is never released'),
  "C13-4": ("C13", "/tmp/seed2/C13/_seed/2", "seed_demo_2_test.go", "^(TestSeedDemo2_WALBoundedWithChunkedSyncAfterBurst)$", ".", ['C13'], "",
